@@ -149,8 +149,9 @@ class Array(Dom):
 class HeapCompiler(Dom):
     """`self` of an ExcelCompiler method in heap mode: cell_map and dep_graph are abstract (A-NX)"""
 
-    def __init__(self, cycles=False, building=False, evaluating=None, trimming=False):
+    def __init__(self, cycles=False, building=False, evaluating=None, trimming=False, eval_raises=()):
         self.cycles = cycles
+        self.eval_raises = tuple(eval_raises)    # exception types the compiled formula may raise (after nested evaluations)
         self.building = building     # graph construction: cell_map membership, graph_todos and edges are mutable heap state
         self.trimming = trimming     # trim_graph: cell_map membership is mutable heap state
         self.evaluating = evaluating   # evaluation: list of frame clauses that hold across nested evaluations (self.eval)
